@@ -45,13 +45,16 @@ impl Slot {
 
     /// Generates a named slot like `$xyz`
     pub fn named(s: &str) -> Slot {
+        // only the canonical spelling of a number is a numeric slot: "07" and "+7" are names of their own.
         if let Ok(x) = s.parse::<u32>() {
-            return Slot(x * 4); // numeric
+            if x.to_string() == s {
+                return Slot(x * 4); // numeric
+            }
         }
 
         SLOT_TABLE.with_borrow_mut(|tab| {
             if s.starts_with("f") {
-                if let Ok(x) = s[1..].parse::<u32>() {
+                if let Some(x) = s[1..].parse::<u32>().ok().filter(|x| x.to_string() == s[1..]) {
                     let out = x * 4 + 1;
                     if tab.fresh_idx <= out {
                         tab.fresh_idx = out + 4;
